@@ -54,7 +54,7 @@ class UsedQubitIndicesVisitor(Visitor):
         # Work around prepare_all/measure_all not taking a register
         self.all_qubits = {}
         for reg in obj.fundamental_registers():
-            self.all_qubits[reg.name] = set(range(reg.size))
+            self.all_qubits[reg.name] = set(range(int(reg.size)))
 
         return self.visit(obj.body, context=context)
 
@@ -105,7 +105,7 @@ class UsedQubitIndicesVisitor(Visitor):
     def visit_Register(self, obj, context=None):
         """Called when a register (or register alias) is an argument to a gate. Jaqal
         does not currently allow this."""
-        size = obj.resolve_size()
+        size = int(obj.resolve_size())
         indices = defaultdict(set)
         for reg, idx in (obj[i].resolve_qubit(context) for i in range(size)):
             indices[reg.name].add(idx)
